@@ -224,6 +224,20 @@ theorem second_pass_deletes_nothing (E : Env) (files : List Bytes) (confs : List
       ⟨hsub f hfr, name, allPaths_mono E files _ confs hsub name hn, c, h1, h2, h3, m, h4, h5⟩
   exact (remaining_sub E files confs f hfr).2 hdel
 
+/-! ### every pass uses the latest configuration delivered before it started -/
+
+theorem inForce_last (initial : List Conf) (delivered : List (List Conf)) (c : List Conf) :
+    inForce initial (delivered ++ [c]) = c := by
+  simp [inForce, List.foldl_append]
+
+theorem inForce_none (initial : List Conf) : inForce initial [] = initial := rfl
+
+/-- what the pass after the deliveries deletes is decided by the last delivered configuration alone. -/
+theorem pass_uses_latest (E : Env) (files : List Bytes) (initial : List Conf) (delivered : List (List Conf))
+    (c : List Conf) :
+    deleted E files (inForce initial (delivered ++ [c])) = deleted E files c := by
+  rw [inForce_last]
+
 /-! ### witness for the code as written, and non-vacuity -/
 
 /-- a one-conf world: path `c`, record path `%path/%s`, retention 1 µs, cwd `/t`, clock at 10 µs, every
